@@ -145,6 +145,37 @@ Definition auto_write_paths (raw : str) : res str :=
 (* before the repair the raw argument went to the checkpoint store unchecked *)
 Definition auto_write_paths_unfixed (raw : str) : res str := Ok raw.
 
+(* ---------- the resolvers as step lists (tie T1: tools/gen/resolvers.py reads the lists from the source) ----------
+   1 absolute guard, 2 ParentDir guard, 3 result root.join(x), 4 x := trim x, 5 empty guard, 6 result x,
+   7 x := if absolute x then x else root.join(x), 8 x := strip_prefix root x or refuse *)
+Fixpoint interp (steps : list N) (root x : str) : res str :=
+  match steps with
+  | [] => Ok x
+  | 1 :: r => if is_absolute x then Err V_ABS else interp r root x
+  | 2 :: r => if has_parent x then Err V_PARENT else interp r root x
+  | 3 :: _ => Ok (join root x)
+  | 4 :: r => interp r root (trim x)
+  | 5 :: r => match x with [] => Err V_EMPTY | _ => interp r root x end
+  | 6 :: _ => Ok x
+  | 7 :: r => interp r root (if is_absolute x then x else join root x)
+  | 8 :: r => match strip_prefix root x with Some y => interp r root y | None => Err V_OUTSIDE end
+  | _ :: _ => Err V_OTHER
+  end.
+
+Definition expected_steps : list (N * list N) :=
+  [(1, [1; 2; 3]); (2, [1; 2; 3]); (3, [1; 2; 3]); (4, [4; 5; 1; 2; 6]); (5, [7; 8; 2; 6]); (6, [1; 2; 6])].
+(* create_checkpoint relativises every path and joins it to the root before it creates the store entry, probes
+   and reads that joined path only; rewind joins the recorded path to the root; every path-taking tool resolves
+   its argument before its first file-system / process use; no builtin module the extractor does not know *)
+Definition expected_orders : list (N * list N) :=
+  [(10, [1; 2; 3; 4; 5]); (11, [1; 1]); (20, [1; 2]); (21, [1; 2]); (22, [1; 2]); (23, [1; 2]); (24, [1; 2]);
+   (25, [1; 2]); (26, [1; 2]); (30, [1])].
+Definition idl_eqb (a b : N * list N) : bool := (fst a =? fst b) && list_eqb N.eqb (snd a) (snd b).
+Definition resolvers_wf (found : bool) (steps orders : list (N * list N)) : bool :=
+  found && list_eqb idl_eqb steps expected_steps && list_eqb idl_eqb orders expected_orders.
+Fixpoint steps_of (l : list (N * list N)) (id : N) : list N :=
+  match l with [] => [] | (i, s) :: r => if i =? id then s else steps_of r id end.
+
 (* ---------- where the operating system lands ---------- *)
 Fixpoint walk (cur : list str) (sg : list str) : list str :=
   match sg with
